@@ -16,11 +16,12 @@ func init() {
 		ID:         "C06",
 		Level:      "other",
 		Technique:  "call-graph SCC recursion-guard, forward CFG search for unchecked negative lengths, depth push/pop pairing, dominance checklist over the hand-unrolled tag loops (static)",
-		Explain:    "Decides structural necessary conditions of C06 on every binary decoder: (1) every input-driven recursion cycle is cut by a dominating depth check; (2) no length returned by protowire.Consume* reaches a slice bound before its sign was tested (malformed input returns an error rather than panicking); (3) in the validator's explicit stack every depth decrement at a push is matched by an increment at the corresponding pop; (4) the hand-unrolled tag loops of the fast path (eager, lazy, single lazy field) use the tag's field number only after rejecting numbers outside [MinValidNumber, MaxValidNumber], reject a mismatched end-group tag, report success only when the group was closed, and report the consumed byte count. Also decided: every ConsumeTag loop of the decoders (including the MessageSet decoder) rejects field numbers above MaxValidNumber before acting on them; the validator's required-field presence test accepts each validation type exactly on the wire type it was assigned for, so a record with the wrong wire type (kept as unknown by Unmarshal) never marks a required field present.",
+		Explain:    "Decides structural necessary conditions of C06 on every binary decoder: (1) every input-driven recursion cycle is cut by a dominating depth check; (2) no length returned by protowire.Consume* reaches a slice bound before its sign was tested (malformed input returns an error rather than panicking); (3) in the validator's explicit stack every depth decrement at a push is matched by an increment at the corresponding pop; (4) the hand-unrolled tag loops of the fast path (eager, lazy, single lazy field) use the tag's field number only after rejecting numbers outside [MinValidNumber, MaxValidNumber], reject a mismatched end-group tag, report success only when the group was closed, and report the consumed byte count. Also decided: every ConsumeTag loop of the decoders (including the MessageSet decoder) rejects field numbers above MaxValidNumber before acting on them; the validator's required-field presence test accepts each validation type exactly on the wire type it was assigned for, so a record with the wrong wire type (kept as unknown by Unmarshal) never marks a required field present. Also: the options rebuilt for messages without a MessageInfo (impl.marshalOptions.Options / unmarshalOptions.Options) carry every option of the proto package from the flag of the same name, including the remaining recursion depth (found D32: the limit was not enforced across legacy children).",
 		NotCovered: "agreement of validator and decoder on every malformed buffer (behavioural); the validator's and the reflection decoder's own tag loops; panics from index arithmetic not tied to a Consume* length.",
 		Quick:      all("./proto", "./internal/impl"),
 		Thorough:   []ConfigLoad{{"default", []string{"./..."}}, {"legacy", []string{"./proto", "./internal/impl"}}},
 		Run: func(c *Ctx) {
+			c.ruleOptionsForward("R-OPTIONS-FORWARD")
 			c.ruleRecursionGuard(recScope{Rule: "R-RECURSION-GUARD", Pkgs: binaryDecoderPkgs, Extra: []edgeGuard{guardConsumeGroupPayload, guardFreshFieldCoder(c.P)}, Floor: 5,
 				CutCallees: lazyCutCallees})
 			c.ruleDecodeSiblings("R-DECODE-SIBLINGS")
